@@ -459,11 +459,37 @@ def _fold_const_test(t):
     return None
 
 
+def _reduce_test(t):
+    """(decided value or None, test with constant operands of and/or removed)"""
+    v = _fold_const_test(t)
+    if v is not None:
+        return v, t
+    if isinstance(t, ast.BoolOp):
+        keep = []
+        for x in t.values:
+            vx, tx = _reduce_test(x)
+            if vx is None:
+                keep.append(tx)
+            elif isinstance(t.op, ast.And) and vx is False:
+                return False, t
+            elif isinstance(t.op, ast.Or) and vx is True:
+                return True, t
+        if not keep:
+            return isinstance(t.op, ast.And), t
+        return None, (keep[0] if len(keep) == 1 else ast.copy_location(ast.BoolOp(t.op, keep), t))
+    if isinstance(t, ast.UnaryOp) and isinstance(t.op, ast.Not):
+        vx, tx = _reduce_test(t.operand)
+        if vx is not None:
+            return (not vx), t
+        return None, ast.copy_location(ast.UnaryOp(ast.Not(), tx), t)
+    return None, t
+
+
 def _simplify(stmts):
     out = []
     for st in stmts:
         if isinstance(st, ast.If):
-            v = _fold_const_test(st.test)
+            v, st.test = _reduce_test(st.test)
             if v is True:
                 out.extend(_simplify(st.body))
                 continue
@@ -545,66 +571,121 @@ def expand_table_dispatch(modules, known, rep):
 
 # ---------------------------------------------------------------------------------------------- N17 constant flags
 def thread_constant_flags(modules, known, rep):
-    """if C: ...; t = K1  else: ...; t = K2        (t a new local, K constants, t used nowhere else)
-       if <test over t>: X else: Y
-    is the first `if` with X / Y (whichever the constant selects) appended to each arm: the flag only carries the branch taken."""
+    """New locals that only ever hold constants and are only read by ONE following `if` statement S2 (test and body) carry
+    nothing but the branch that was taken before: S2 is specialised and appended to every leaf of the `if` tree S1 in front of
+    it (and of the constant initialisations in front of that), with the constants each leaf has established.
+
+        flag = True; err = None                       if c:   if a: raise E('A')   # flag True, err 'A'
+        if c:   if a: err = 'A'  else: flag = False           else: Y              # flag False
+        if flag: (if err is not None: raise E(err)); X   =>   else: X              # flag True, err None
+        else: Y
+    """
     kl = known.get("locals") or {}
     for rel, sc, fn in all_functions(modules):
         key = f"{rel}::{sc}.{fn.name}"
         if key not in kl:
             continue
         known_locals = set(kl[key])
+        params = set(_params(fn))
         changed = True
-        while changed:
+        rounds = 0
+        while changed and rounds < 8:
             changed = False
+            rounds += 1
             for owner, fld, stmts in list(_blocks(fn)):
-                for i in range(len(stmts) - 1):
-                    s1, s2 = stmts[i], stmts[i + 1]
-                    if not (isinstance(s1, ast.If) and isinstance(s2, ast.If)):
+                for i in range(1, len(stmts)):
+                    s2 = stmts[i]
+                    if not isinstance(s2, ast.If):
                         continue
-                    tnames = {n.id for n in ast.walk(s2.test) if isinstance(n, ast.Name)}
-                    if len(tnames) != 1:
+                    s1 = stmts[i - 1]
+                    if not isinstance(s1, ast.If):
                         continue
-                    t = next(iter(tnames))
-                    if t in known_locals or t in _params(fn):
+                    # candidate flags: names read in s2 that are fresh constant-only locals
+                    read = {n.id for n in ast.walk(s2) if isinstance(n, ast.Name) and isinstance(n.ctx, ast.Load)}
+                    flags = set()
+                    for t in read:
+                        if t in known_locals or t in params:
+                            continue
+                        stores = [a for a in ast.walk(fn) if isinstance(a, ast.Assign) and any(isinstance(x, ast.Name) and x.id == t for tt in a.targets for x in ast.walk(tt))]
+                        other_stores = [n for n in ast.walk(fn) if isinstance(n, ast.Name) and n.id == t and isinstance(n.ctx, (ast.Store, ast.Del))]
+                        if not stores or len(other_stores) != len(stores):
+                            continue
+                        if not all(len(a.targets) == 1 and isinstance(a.targets[0], ast.Name) and isinstance(a.value, ast.Constant) for a in stores):
+                            continue
+                        loads = [n for n in ast.walk(fn) if isinstance(n, ast.Name) and n.id == t and isinstance(n.ctx, ast.Load)]
+                        if any(not any(n is x for x in ast.walk(s2)) for n in loads):
+                            continue
+                        if any(isinstance(n, ast.Name) and n.id == t and isinstance(n.ctx, ast.Store) for n in ast.walk(s2)):
+                            continue
+                        # every store is in s1 or in the straight-line run directly in front of it
+                        k = i - 2
+                        pre = []
+                        while k >= 0 and isinstance(stmts[k], ast.Assign) and len(stmts[k].targets) == 1 and isinstance(stmts[k].targets[0], ast.Name) \
+                                and isinstance(stmts[k].value, ast.Constant):
+                            pre.append(stmts[k])
+                            k -= 1
+                        if all(any(a is x for x in ast.walk(s1)) or a in pre for a in stores):
+                            flags.add(t)
+                    if not flags or not any(isinstance(n, ast.Name) and n.id in flags for n in ast.walk(s2.test)):
                         continue
-                    loads = [n for n in ast.walk(fn) if isinstance(n, ast.Name) and n.id == t and isinstance(n.ctx, ast.Load)]
-                    if any(not any(n is x for x in ast.walk(s2.test)) for n in loads):
-                        continue
-                    stores = [n for n in ast.walk(fn) if isinstance(n, ast.Name) and n.id == t and isinstance(n.ctx, ast.Store)]
-                    arms = [s1.body, s1.orelse]
-                    consts = []
-                    ok = bool(s1.orelse)
-                    for arm in arms:
-                        asg = [x for x in arm if isinstance(x, ast.Assign) and len(x.targets) == 1 and isinstance(x.targets[0], ast.Name) and x.targets[0].id == t]
-                        nested = [n for x in arm if x not in asg for n in ast.walk(x) if isinstance(n, ast.Name) and n.id == t]
-                        if len(asg) != 1 or nested or not isinstance(asg[0].value, ast.Constant):
-                            ok = False
-                            break
-                        consts.append(asg[0])
-                    if not ok or len(stores) != 2:
-                        continue
-                    new_arms = []
-                    for arm, a in zip(arms, consts):
+                    # initial constants from the run in front of s1
+                    env0 = {}
+                    k = i - 2
+                    init_nodes = []
+                    while k >= 0 and isinstance(stmts[k], ast.Assign) and len(stmts[k].targets) == 1 and isinstance(stmts[k].targets[0], ast.Name) \
+                            and isinstance(stmts[k].value, ast.Constant):
+                        if stmts[k].targets[0].id in flags and stmts[k].targets[0].id not in env0:
+                            env0[stmts[k].targets[0].id] = stmts[k].value.value
+                            init_nodes.append(stmts[k])
+                        k -= 1
+                    failed = False
+
+                    def specialise(env):
                         class S(ast.NodeTransformer):
                             def visit_Name(self, node):
-                                if node.id == t and isinstance(node.ctx, ast.Load):
-                                    return ast.copy_location(ast.Constant(a.value.value), node)
+                                if node.id in env and isinstance(node.ctx, ast.Load):
+                                    return ast.copy_location(ast.Constant(env[node.id]), node)
                                 return node
-                        test = S().visit(copy.deepcopy(s2.test))
-                        v = _fold_const_test(test)
-                        if v is None:
-                            ok = False
-                            break
-                        chosen = copy.deepcopy(s2.body if v else s2.orelse)
-                        new_arms.append([x for x in arm if x is not a] + chosen)
-                    if not ok:
+                        c = S().visit(copy.deepcopy(s2))
+                        return _simplify([c])
+
+                    def thread(block, env):
+                        """returns the block with s2 specialised at every place where control leaves it by falling through"""
+                        nonlocal failed
+                        out = []
+                        env = dict(env)
+                        for st in block:
+                            if isinstance(st, ast.Assign) and len(st.targets) == 1 and isinstance(st.targets[0], ast.Name) and st.targets[0].id in flags:
+                                env[st.targets[0].id] = st.value.value
+                                continue  # the flag assignment itself disappears
+                            if any(isinstance(n, ast.Name) and n.id in flags and isinstance(n.ctx, ast.Store) for n in ast.walk(st)):
+                                if isinstance(st, ast.If) and st is block[-1]:
+                                    st.body = thread(st.body, env)
+                                    st.orelse = thread(st.orelse, env)
+                                    out.append(st)
+                                    return out  # both arms have received their copy
+                                failed = True
+                            out.append(st)
+                        if not (out and isinstance(out[-1], (ast.Return, ast.Raise, ast.Break, ast.Continue))):
+                            if not all(f in env for f in flags if any(isinstance(n, ast.Name) and n.id == f for n in ast.walk(s2))):
+                                failed = True
+                            out.extend(specialise(env))
+                        return out
+                    s1c = copy.deepcopy(s1)
+                    flag_free = not any(isinstance(n, ast.Name) and n.id in flags and isinstance(n.ctx, ast.Store) for n in ast.walk(s1c))
+                    if flag_free:
                         continue
-                    s1.body = new_arms[0] or [ast.copy_location(ast.Pass(), s1)]
-                    s1.orelse = new_arms[1]
-                    del stmts[i + 1]
-                    ast.fix_missing_locations(s1)
-                    rep.other.append(f"branch flag `{t}` in {sc + '.' if sc else ''}{fn.name} threaded into the branches that set it")
+                    new_s1 = thread([s1c], env0)
+                    if failed or any(isinstance(n, ast.Name) and n.id in flags for x in new_s1 for n in ast.walk(x)):
+                        continue
+                    for x in new_s1:
+                        ast.fix_missing_locations(x)
+                    lo = i - 1
+                    stmts[lo:i + 1] = new_s1
+                    for a in init_nodes:
+                        if a in stmts:
+                            stmts.remove(a)
+                    rep.other.append(f"branch flag(s) {sorted(flags)} in {sc + '.' if sc else ''}{fn.name} threaded into the branches that set them")
                     changed = True
                     break
                 if changed:
